@@ -1,5 +1,7 @@
 import TinysetModel.Proofs.Plain
 import TinysetModel.Proofs.Consts
+import TinysetModel.Proofs.Refine
+import TinysetModel.Proofs.CfgInst
 /-! C02 — SetU32 behaves as an exact mathematical set of u32 under every history.
 The theorems below are about the executable model instantiated at `cfg32`. -/
 namespace C02
@@ -56,4 +58,104 @@ theorem premove_present' {a : Tbl} {off k i0 : Nat} (inv : Inv a off) {b : Nat} 
 theorem consts_u32 : TinyC.codec32.splits = Gen.bitsplits32 ∧ (∀ p ∈ Gen.tagMasks32, p.2 = 3) :=
   ⟨bitsplits32_match, tagMasks32_coherent⟩
 
+/-! ### the set-level refinement theorems (`Proofs/Refine.lean`) at `cfg32`
+
+`elems cfg32 r` (the iteration order) is the abstraction of a representation `r`; `WF cfg32 r` is the
+representation invariant. All statements are "whenever the model returns": the model's error results
+(`Err.fuel`, `Err.scan`, …) are excluded by hypothesis, not claimed impossible. -/
+
+/-- `insert` is set insertion: for every RNG oracle `g`, every fuel, every well-formed `r` and every `e < 2^32`,
+    if `insert` returns `(r', b)` then `r'` is well formed, `b` says "`e` was absent", and `r'` has exactly
+    the members of `r` plus `e` -/
+theorem insert_refines_u32 {D : Type} (g : Rng D) (fuel : Nat) {r : Rp} (wf : WF cfg32 r) (e : Nat) (he : e < 2 ^ 32)
+    {d d' : D} {r' : Rp} {b : Bool} (h : insert cfg32 g fuel r e d = .ok ((r', b), d')) : InsOK cfg32 r e r' b :=
+  insert_refines cfg32_ok g fuel r e d r' b d' wf he h
+
+/-- `remove` is set removal: if it returns `(r', b)` then `r'` is well formed, `b` says "`e` was present", and `r'`
+    has exactly the members of `r` other than `e` -/
+theorem remove_refines_u32 {D : Type} (g : Rng D) (fuel : Nat) {r : Rp} (wf : WF cfg32 r) (e : Nat) (he : e < 2 ^ 32)
+    {d d' : D} {r' : Rp} {b : Bool} (h : remove cfg32 g fuel r e d = .ok ((r', b), d')) : RemOK cfg32 r e r' b :=
+  remove_refines cfg32_ok g fuel wf e he h
+
+/-- `contains` is membership, in all five shapes (empty, inline, dense bitset, plain table, bitmap table) -/
+theorem contains_refines_u32 {r : Rp} (wf : WF cfg32 r) (e : Nat) (he : e < 2 ^ 32) :
+    contains cfg32 r e = true ↔ e ∈ elems cfg32 r :=
+  contains_refines cfg32_ok wf e he
+
+/-- a well-formed value has no duplicate members, `len` is their number, and they are all `< 2^32` -/
+theorem absOK_u32 {r : Rp} (wf : WF cfg32 r) : AbsOK cfg32 r :=
+  absOK_of_wf cfg32_ok wf
+
+/-- `len` grows by one exactly when `insert` reports "was absent" -/
+theorem len_insert_u32 {D : Type} (g : Rng D) (fuel : Nat) {r : Rp} (wf : WF cfg32 r) (e : Nat) (he : e < 2 ^ 32)
+    {d d' : D} {r' : Rp} {b : Bool} (h : insert cfg32 g fuel r e d = .ok ((r', b), d')) :
+    len r' = if b = true then len r + 1 else len r :=
+  len_insert cfg32_ok g fuel wf e he h
+
+/-- `len` shrinks by one exactly when `remove` reports "was present" -/
+theorem len_remove_u32 {D : Type} (g : Rng D) (fuel : Nat) {r : Rp} (wf : WF cfg32 r) (e : Nat) (he : e < 2 ^ 32)
+    {d d' : D} {r' : Rp} {b : Bool} (h : remove cfg32 g fuel r e d = .ok ((r', b), d')) :
+    len r' = if b = true then len r - 1 else len r :=
+  len_remove cfg32_ok g fuel wf e he h
+
+/-- **every history**: for every RNG oracle, every fuel and every list of `insert`/`remove`/`contains`/`len`
+    calls with arguments `< 2^32`, started on the empty set: if the model run returns, its answers are exactly
+    the answers of the ideal set (`specRun []`), the final value is well formed and represents the final ideal set -/
+theorem run_refines_u32 {D : Type} (g : Rng D) (fuel : Nat) (ops : List Op) (hops : ∀ op ∈ ops, op.InRange 32)
+    {d d' : D} {r' : Rp} {outs : List Out} (h : runOps cfg32 g fuel .empty ops d = .ok ((r', outs), d')) :
+    WF cfg32 r' ∧ outs = (specRun [] ops).2 ∧ (∀ x, x ∈ elems cfg32 r' ↔ x ∈ (specRun [] ops).1) :=
+  run_refines_empty cfg32_ok g fuel ops hops h
+
+/-- the same from any well-formed start `r` representing the duplicate-free list `s` -/
+theorem run_refines_from_u32 {D : Type} (g : Rng D) (fuel : Nat) (ops : List Op) (hops : ∀ op ∈ ops, op.InRange 32)
+    {r : Rp} (wf : WF cfg32 r) (s : List Nat) (hs : s.Nodup) (hrs : ∀ x, x ∈ elems cfg32 r ↔ x ∈ s)
+    {d d' : D} {r' : Rp} {outs : List Out} (h : runOps cfg32 g fuel r ops d = .ok ((r', outs), d')) :
+    WF cfg32 r' ∧ outs = (specRun s ops).2 ∧ (∀ x, x ∈ elems cfg32 r' ↔ x ∈ (specRun s ops).1) :=
+  run_refines cfg32_ok g fuel ops hops wf s hs hrs h
+
+/-! ### the hypotheses are satisfiable: a concrete run that leaves the inline representation -/
+
+/-- a small history -/
+def demo : List Op := [.ins 2147483648, .ins 2148532224, .ins 2149580800, .ins 2150629376, .ins 2151677952, .len,
+  .rem 2147483648, .con 2147483648, .con 2148532224, .ins 2148532224, .len]
+
+/-- the model (with the crate's deterministic generator, fuel 6) does return on `demo`, in a heap layout -/
+theorem demo_runs : runOps cfg32 detRng 6 .empty demo () = .ok ((.heap 4 8 2940401507 #[2148532224, 2149580800, 2150629376, 2151677952, 0, 0, 0, 0], [.bool true, .bool true, .bool true, .bool true, .bool true, .nat 5, .bool true, .bool false, .bool true,
+      .bool false, .nat 4]), ()) := by
+  decide +kernel
+
+/-- so this table is a non-trivial well-formed state … -/
+theorem demo_wf : WF cfg32 (.heap 4 8 2940401507 #[2148532224, 2149580800, 2150629376, 2151677952, 0, 0, 0, 0]) :=
+  (run_refines_u32 detRng 6 demo (by decide) demo_runs).1
+
+/-- … its answers were the ideal ones … -/
+example : [.bool true, .bool true, .bool true, .bool true, .bool true, .nat 5, .bool true, .bool false, .bool true,
+      .bool false, .nat 4] = (specRun [] demo).2 :=
+  (run_refines_u32 detRng 6 demo (by decide) demo_runs).2.1
+
+/-- … the ideal set at the end is this one … -/
+example : (specRun [] demo).1 = [2148532224, 2149580800, 2150629376, 2151677952] := by decide
+
+/-- … and the single-operation theorems apply to it -/
+example : contains cfg32 (.heap 4 8 2940401507 #[2148532224, 2149580800, 2150629376, 2151677952, 0, 0, 0, 0]) 2149580800 = true :=
+  (contains_refines_u32 demo_wf 2149580800 (by decide)).2
+    (((run_refines_u32 detRng 6 demo (by decide) demo_runs).2.2 2149580800).2 (by decide))
+
+example : contains cfg32 (.heap 4 8 2940401507 #[2148532224, 2149580800, 2150629376, 2151677952, 0, 0, 0, 0]) 2147483648 ≠ true := fun h =>
+  absurd (((run_refines_u32 detRng 6 demo (by decide) demo_runs).2.2 2147483648).1
+    ((contains_refines_u32 demo_wf 2147483648 (by decide)).1 h)) (by decide)
+
+example : len (.heap 4 8 2940401507 #[2148532224, 2149580800, 2150629376, 2151677952, 0, 0, 0, 0]) = (specRun [] demo).1.length := by
+  have ab := absOK_u32 demo_wf
+  rw [ab.len]
+  exact ((List.perm_ext_iff_of_nodup ab.nodup (specRun_nodup demo List.nodup_nil)).2
+    (run_refines_u32 detRng 6 demo (by decide) demo_runs).2.2).length_eq
+
 end C02
+
+#print axioms C02.insert_refines_u32
+#print axioms C02.remove_refines_u32
+#print axioms C02.contains_refines_u32
+#print axioms C02.run_refines_u32
+#print axioms C02.demo_runs
+#print axioms C02.demo_wf
